@@ -151,6 +151,36 @@ def obligations(r, tier, seed):
             k.same(a.to_array(), before_a, "iadd-boxplus/operand-untouched")
         obs.append(Ob("C09/%s/iadd-delegates" % T, iadd, funcs=["graphslam.pose.base_pose.BasePose.__iadd__"]))
 
+    # ---- every operation is a function of the values the operands hold when it is called: poses are mutable arrays, so all
+    #      operations are queried in a first concrete state, the operands are overwritten in place, and all are queried again
+    for T in TYPES:
+        def current_values(k, T=T):
+            from gsv.contracts.c01 import FIRST_STATE
+            from gsv.kernel import POSE_N
+            PT = POINT_OF[T]
+            a1, b1 = k.pose_from_raw(T, FIRST_STATE[T][0]), k.pose_from_raw(T, FIRST_STATE[T][1])
+            a2, b2 = k.pose(T, "a"), k.pose(T, "b")
+            pt = k.pose_cls(PT)(list(k.reals("x", POSE_N[PT])))
+            d = k.np.array([0.125, -0.25, 0.0625, 0.25, -0.125, 0.5][:POSE_C[T]])
+
+            def ops(a, b):
+                out = [("to_array", a.to_array()), ("to_compact", a.to_compact()), ("position", a.position), ("orientation", a.orientation),
+                       ("inverse", a.inverse.to_array()), ("oplus", (a + b).to_array()), ("ominus", (a - b).to_array()),
+                       ("point action", (a + pt).to_array()), ("boxplus", (a + d).to_array()), ("copy", a.copy().to_array()),
+                       ("other.oplus(self)", (b + a).to_array())]
+                if hasattr(a, "to_matrix"):
+                    out.append(("to_matrix", a.to_matrix()))
+                return out
+            first = ops(a1, b1)
+            a1[:] = a2.to_array()
+            b1[:] = b2.to_array()
+            again = ops(a1, b1)
+            ref = ops(k.pose_from_raw(T, [a2[i] for i in range(POSE_N[T])]), k.pose_from_raw(T, [b2[i] for i in range(POSE_N[T])]))
+            k.check(len(first) == len(again) == len(ref), "same operations queried")
+            for (m, got), (_, want) in zip(again, ref):
+                k.eq(got, want, "%s after the operands were overwritten in place == the result for fresh poses with the new values" % m)
+        obs.append(Ob("C09/%s/operations-depend-on-the-current-values-only" % T, current_values, funcs=[FUNCS[T]]))
+
     # canaries: wrong specs that must be refuted
     def canary_order(k):
         a, b = k.pose("SE3", "a"), k.pose("SE3", "b")
